@@ -1,7 +1,7 @@
 (* Props/C16.v — Async chain and take behave like tokio's own under every Pending pattern and every ReadBuf.
    ReadBuf and tokio's Chain/Take are transcriptions of tokio 1.53.1 (Sem/ReadBuf.v, Spec/TokioAdapters.v), modelled and held to the
    real types by the harness. *)
-From FB Require Import Sem.Base Sem.Lemmas Sem.ReadBuf Model.Tokio Model.Pinned Spec.TokioAdapters Facets.TokioAdapters Facets.AStreams.
+From FB Require Import Sem.Base Sem.Lemmas Sem.ReadBuf Model.Tokio Model.Pinned Spec.TokioAdapters Facets.TokioAdapters Facets.AStreams Facets.ATakeStream.
 Open Scope Z_scope.
 
 (* chain: one poll = one poll of tokio's Chain, for ALL inner streams keeping the ReadBuf contract (same slice, filled only grows),
@@ -60,6 +60,40 @@ Example c16_chain_stream_ex :
   poll_all 12 (achain_new ([65; 66; 67; 68], [true; false; true]) ([99; 100], [true; true])) [] = [65; 66; 67; 68; 99; 100].
 Proof. split; [exact marked_rd_source|vm_compute; reflexivity]. Qed.
 
+(* stream level for the take, from its observational specification: over ANY inner stream whose observable behaviour is that of a
+   capacity-determined prefix source, one poll either changes nothing a caller can see (Pending) or appends, after the untouched
+   filled bytes, a prefix of the first `allowance` bytes that remain, charges exactly that many, and leaves every later byte unread
+   in the inner stream — under every pattern of Pending, for every ReadBuf *)
+Theorem c16_take_stream : forall RWS chk (R2 : AsyncReader RWS) (AA : AAReader RWS) rem okS,
+  aimplements R2 AA -> aa_prefix_source AA rem okS ->
+  forall buf w, rb_wf buf -> 0 <= at_rem w -> zlen (rb_buf buf) <= usize_max -> okS (at_rw w) ->
+  match atake_poll_read chk R2 buf w with
+  | Val (PReady (Ok _), b') w' => exists k, 0 <= k <= Z.min (at_rem w) (rb_remaining buf) /\ k <= zlen (rem (at_rw w)) /\
+        rb_filled_bytes b' = rb_filled_bytes buf ++ firstn (Z.to_nat k) (rem (at_rw w)) /\
+        rb_remaining b' = rb_remaining buf - k /\ at_rem w' = at_rem w - k /\
+        rem (at_rw w') = skipn (Z.to_nat k) (rem (at_rw w)) /\ okS (at_rw w') /\
+        (0 < at_rem w -> 0 < rb_remaining buf -> rem (at_rw w) <> [] -> 1 <= k)
+  | Val (PPending, b') w' => rb_filled_bytes b' = rb_filled_bytes buf /\ rb_remaining b' = rb_remaining buf /\
+        at_rem w' = at_rem w /\ rem (at_rw w') = rem (at_rw w) /\ okS (at_rw w')
+  | _ => False
+  end.
+Proof. intros RWS chk R2 AA rem okS Hi Hs. exact (atake_stream chk R2 AA rem okS Hi Hs). Qed.
+
+(* non-vacuity (also of c16_take_observable's hypothesis): the byte list with Pending marks is such an inner stream; limit 3 over
+   "abcde" with a Pending first, polled with a ReadBuf that already holds one byte and has room for four more *)
+Example c16_take_stream_ex :
+  aimplements marked_rd marked_aa /\ aa_prefix_source marked_aa fst (fun _ => True) /\
+  let b0 := {| rb_buf := [7; 0; 0; 0; 0]; rb_filled := 1; rb_init := 5 |} in
+  match atake_poll_read true marked_rd b0 {| at_rem := 3; at_rw := ([97; 98; 99; 100; 101], [true; false]) |} with
+  | Val (PPending, b1) w1 =>
+      match atake_poll_read true marked_rd b1 w1 with
+      | Val (PReady (Ok _), b2) w2 => rb_filled_bytes b2 = [7; 97; 98; 99] /\ at_rem w2 = 0 /\ fst (at_rw w2) = [100; 101]
+      | _ => False
+      end
+  | _ => False
+  end.
+Proof. split; [exact marked_aimplements|]. split; [exact marked_aa_source|]. vm_compute. auto. Qed.
+
 (* the pre-fix chain is refuted at a zero-capacity ReadBuf: first "AB", second "cd": a capacity-0 poll, then two capacity-8 polls *)
 Definition lrd (l : list Z) : AsyncReader (list Z) := {| prd := fun st b =>
   let n := Z.min (rb_remaining b) (zlen st) in
@@ -83,3 +117,4 @@ Print Assumptions c16_take_observable.
 Print Assumptions c16_tokio_take_observable.
 Print Assumptions c16_pinned_refuted.
 Print Assumptions c16_chain_stream.
+Print Assumptions c16_take_stream.
